@@ -134,6 +134,7 @@ type dec struct {
 	sport, dport int
 	flags        uint8
 	seq, ack     uint32
+	win          int
 	payload      []byte
 	itype, icode int
 	ident, iseq  int
@@ -171,6 +172,7 @@ func decode(proto int, b []byte) dec {
 		t, err := wire.ParseTCP(src, dst, pl)
 		if err == nil {
 			d.kind, d.sport, d.dport, d.flags, d.seq, d.ack, d.payload = "tcp", int(t.SrcPort), int(t.DstPort), t.Flags, t.Seq, t.Ack, t.Payload
+			d.win = int(t.Window)
 		}
 	case 17:
 		u, err := wire.ParseUDP(src, dst, pl)
